@@ -28,7 +28,7 @@ func Spec() *run.Spec {
 			"plus ~1 000 point pairs (random, near |p-q|≈1e-3…1e-6, straddling every branch border). An operator case is a random expression tree of " +
 			"Union/Intersect/Subtract/Translate (arity 1…6, depth ≤ 3) over 3–6 primitives, placed so that the world origin is strictly inside or outside the composite, and instantiated afresh six times: " +
 			"each fresh function is first sampled at a special point (exactly (0,0,0), -0 components, an operand centre, the previous function's last sample, the local origin of a ≥3-operand node) " +
-			"and then probed for call-history dependence (same point twice, A,B,A,B, first probe again; a repeated point must get the identical answer); primitives and VarryingThicknessLine get the same first-probe/history script. Checked: sign against independent membership, zero on the surface, " +
+			"and then probed for call-history dependence (same point twice, A,B,A,B, first probe again; a repeated point must get the identical answer); primitives and VarryingThicknessLine get the same first-probe/history script. A fifth of the operator cases builds 3–10 composites (Union, Intersect twice, Subtract of both, in shuffled order) from ONE operand list passed as ops... and checks, after all are built, every composite against operands and reference solids and every entry of the list against the operand put there (caller-slice-modified). Checked: sign against independent membership, zero on the surface, " +
 			"Euclidean value for sphere/box/capsule/plane, |f(p)-f(q)| ≤ |p-q|, operator sign = set operation of operand signs, Translate(f,t)(p)=f(p-t). " +
 			"Non-trivial: the case saw decided points on both sides of the surface, surface points and branch-straddling pairs (operators: points inside and outside the composite). " +
 			"Distinct = distinct (kind, parameter regime) resp. operator-tree shapes.",
@@ -45,7 +45,7 @@ func Spec() *run.Spec {
 			"operator_node_checks": 200000, "translate_checks": 50000, "composite_points_inside": 20000, "composite_points_outside": 20000,
 			"varying_line_points": 20000, "primitive_kinds": 7, "operators": 5,
 			"first_probes_strictly_inside": 1500, "first_probes_strictly_outside": 1500, "first_probe_kinds": 7,
-			"operator_repeated_point_answers": 30000, "primitive_repeated_point_answers": 30000, "operator_arities": 14, "operator_origin_placement": 2, "size_decades": 6, "parameter_regimes": 36,
+			"operator_repeated_point_answers": 30000, "primitive_repeated_point_answers": 30000, "operator_arities": 14, "operator_origin_placement": 2, "size_decades": 6, "parameter_regimes": 36, "shared_list_cases": 200, "shared_list_entry_checks": 100000, "shared_list_composite_checks": 100000, "shared_list_arities": 6, "shared_list_constructions": 4,
 		},
 		Phases: []run.Phase{
 			{Name: "primitives", Cases: func(tier string) int {
